@@ -272,3 +272,61 @@ func dumpDB(db kv.DB) ([]dumpEntry, error) {
 
 var _ = metadata.MD{}
 var _ = filepath.Join
+
+// compareReplicaDumps compares two replicas' full DB dumps byte-wise, excluding keys that
+// are local by design (term, term options); notification batches are compared decoded
+// (proto maps have no canonical encoding) and only for offsets both replicas still hold
+// (they are trimmed locally by time).
+func compareReplicaDumps(a, b kv.DB) string {
+	da, err := dumpDB(a)
+	if err != nil {
+		return "dump failed: " + err.Error()
+	}
+	db, err := dumpDB(b)
+	if err != nil {
+		return "dump failed: " + err.Error()
+	}
+	local := func(k string) bool { return k == internalPrefix+"term" || k == internalPrefix+"term-options" }
+	notif := func(k string) bool { return len(k) > len(internalPrefix)+14 && k[:len(internalPrefix)+14] == internalPrefix+"notifications/" }
+	ma := map[string][]byte{}
+	for _, e := range da {
+		if !local(e.Key) {
+			ma[e.Key] = e.Value
+		}
+	}
+	seen := map[string]bool{}
+	for _, e := range db {
+		if local(e.Key) {
+			continue
+		}
+		seen[e.Key] = true
+		va, ok := ma[e.Key]
+		if !ok {
+			if notif(e.Key) {
+				continue
+			}
+			return fmt.Sprintf("key %q present on one replica only", e.Key)
+		}
+		if notif(e.Key) {
+			x, y := &proto.NotificationBatch{}, &proto.NotificationBatch{}
+			if x.UnmarshalVT(va) != nil || y.UnmarshalVT(e.Value) != nil || !pb.Equal(x, y) {
+				return fmt.Sprintf("notification batch %q differs between replicas", e.Key)
+			}
+			continue
+		}
+		if string(va) != string(e.Value) {
+			sa, sb := &proto.StorageEntry{}, &proto.StorageEntry{}
+			_ = sa.UnmarshalVT(va)
+			_ = sb.UnmarshalVT(e.Value)
+			return fmt.Sprintf("key %q differs between replicas: {v=%d mc=%d ct=%d mt=%d len=%d} vs {v=%d mc=%d ct=%d mt=%d len=%d}", e.Key,
+				sa.VersionId, sa.ModificationsCount, sa.CreationTimestamp, sa.ModificationTimestamp, len(sa.Value),
+				sb.VersionId, sb.ModificationsCount, sb.CreationTimestamp, sb.ModificationTimestamp, len(sb.Value))
+		}
+	}
+	for k := range ma {
+		if !seen[k] && !notif(k) {
+			return fmt.Sprintf("key %q present on one replica only", k)
+		}
+	}
+	return ""
+}
